@@ -68,7 +68,10 @@ AggTypes ==
      TyD("lst_u", "aggr", <<>>, <<>>, AggF("LIST", 0, -1, "REAL", TRUE, FALSE)),
      TyD("lst_p", "aggr", <<>>, <<>>, AggF("LIST", 1, 3, "REAL", FALSE, FALSE)),
      TyD("set_p", "aggr", <<>>, <<>>, AggF("SET", 2, 5, "STRING", FALSE, FALSE)),
-     TyD("bag_p", "aggr", <<>>, <<>>, AggF("BAG", 1, -1, "cnt", FALSE, FALSE)) >>
+     TyD("bag_p", "aggr", <<>>, <<>>, AggF("BAG", 1, -1, "cnt", FALSE, FALSE)),
+     \* named aggregates whose elements are of a select / enumeration type of the schema
+     TyD("lst_sel", "aggr", <<>>, <<>>, AggF("LIST", 0, -1, "pick", FALSE, FALSE)),
+     TyD("set_enum", "aggr", <<>>, <<>>, AggF("SET", 1, -1, "colour", FALSE, FALSE)) >>
 (* two selects that contain each other through named aggregate types (legal: the recursion passes through a LIST)   *)
 SelAggTypes ==
   << TyD("la", "aggr", <<>>, <<>>, AggF("LIST", 0, -1, "sb", FALSE, FALSE)), TyD("lb", "aggr", <<>>, <<>>, AggF("LIST", 0, -1, "sa", FALSE, FALSE)),
@@ -82,7 +85,8 @@ ExtraAttrs(ts) ==
     [] ts.k = "aggs" -> <<A("y1", AggF("ARRAY", 1, 3, "lab", TRUE, TRUE), FALSE), A("y2", AggF("LIST", 0, -1, "e1", TRUE, FALSE), FALSE),
                           A("y3", AggF("SET", 0, -1, "colour", FALSE, FALSE), TRUE), A("y4", AggF("BAG", 0, 2, "INTEGER", FALSE, FALSE), FALSE),
                           A("y5", T("arr_ou"), TRUE), A("y6", AggF("ARRAY", 0, 1, "REAL", TRUE, FALSE), FALSE),
-                          A("y7", AggOf("LIST", 0, -1, AggF("ARRAY", 0, 2, "INTEGER", TRUE, FALSE)), FALSE)>>
+                          A("y7", AggOf("LIST", 0, -1, AggF("ARRAY", 0, 2, "INTEGER", TRUE, FALSE)), FALSE),
+                          A("y8", T("lst_sel"), TRUE), A("y9", T("set_enum"), TRUE)>>
 RootAttrs(ak) ==
   CASE ak = 1 -> <<A("a1", T("INTEGER"), FALSE), A("a2", T("REAL"), TRUE)>>
     [] ak = 2 -> <<A("a1", T("INTEGER"), FALSE), A("a2", T("colour"), FALSE), A("a3", T("lab"), TRUE), A("a4", Agg("LIST", 1, 3, "INTEGER"), FALSE)>>
